@@ -206,6 +206,9 @@ func (e *fnEnc) call0(v ssa.Value, c *ssa.CallCommon, instr ssa.Instruction) {
 		}
 	}
 	contract := e.vc.P.Contract(fn)
+	if contract != nil && !contract.Pure {
+		defer e.materialiseInterior(fn, c, args)()
+	}
 	switch {
 	case contract != nil && !contract.Pure:
 		e.applyContract(v, fn, contract, c, args, hint, instr)
@@ -374,8 +377,14 @@ func (e *fnEnc) applyContract(v ssa.Value, fn *ssa.Function, ct *FuncContract, c
 	}
 	envPost := e.calleeEnv(fn, args, results, pre, e.cur)
 	for _, cl := range ct.Ensures {
+		if strings.Contains(cl.Src, "hits(") {
+			continue // speaks about the callee's own call sites: proved in the callee, meaningless to a caller
+		}
 		f, err := envPost.Bool(cl.Expr)
 		if err != nil {
+			if strings.Contains(err.Error(), "unknown name") {
+				continue // speaks about the callee's locals: proved inside the callee only
+			}
 			e.fail("call %s: ensures %q: %v", short, cl.Src, err)
 		}
 		e.vc.assume(sImp(e.guard(), f))
@@ -803,4 +812,58 @@ func (vc *VC) functionalApp(fn *ssa.Function, args []string) string {
 	vc.declFun(name, "("+strings.Join(sorts, " ")+") "+S.SortOf(fn.Signature.Results().At(0).Type()))
 	vc.note("FUNCTIONAL (assumed): %s returns a function of its arguments only (the data it reads is not modified between calls)", FuncKey(fn))
 	return sApp(name, args...)
+}
+
+// materialiseInterior: a pointer argument that is the address of a struct-valued field (&x.f) is an
+// opaque reference in this model. So that the callee's contract, which speaks about the pointee through
+// the pointee type's own field heaps, sees the right values, the current value of x.f is copied into
+// those heaps at that reference before the call; the returned function copies it back after the call
+// when the callee may write those heaps.
+func (e *fnEnc) materialiseInterior(fn *ssa.Function, c *ssa.CallCommon, args []string) func() {
+	type mat struct {
+		lv   *LValue
+		addr string
+		T    types.Type
+		st   *types.Struct
+	}
+	var mats []mat
+	for k, a := range c.Args {
+		lv, ok := e.lvs[a]
+		if !ok || k >= len(args) || (lv.Kind == "deref" && len(lv.Path) == 0) {
+			continue
+		}
+		pt, ok := a.Type().Underlying().(*types.Pointer)
+		if !ok {
+			continue
+		}
+		st, ok := pt.Elem().Underlying().(*types.Struct)
+		if !ok || strings.HasPrefix(types.TypeString(pt.Elem(), nil), "sync.") {
+			continue
+		}
+		cur := e.load(lv)
+		sortName := e.S().SortOf(pt.Elem())
+		for i := 0; i < st.NumFields(); i++ {
+			key := e.S().FieldKey(pt.Elem(), i)
+			e.setHeap(key, fmt.Sprintf("(store %s %s (%s %s))", e.heap(key), args[k], e.S().fieldSel(sortName, st.Field(i).Name(), i), cur))
+		}
+		mats = append(mats, mat{lv, args[k], pt.Elem(), st})
+	}
+	return func() {
+		sum := e.vc.P.Summ[fn]
+		for _, m := range mats {
+			written := sum == nil || sum.All
+			var parts []string
+			for i := 0; i < m.st.NumFields(); i++ {
+				key := e.S().FieldKey(m.T, i)
+				if sum != nil && sum.Writes[key.Name] {
+					written = true
+				}
+				parts = append(parts, fmt.Sprintf("(select %s %s)", e.heap(key), m.addr))
+			}
+			if !written || m.st.NumFields() == 0 {
+				continue
+			}
+			e.store(m.lv, fmt.Sprintf("(mk-%s %s)", e.S().SortOf(m.T), strings.Join(parts, " ")))
+		}
+	}
 }
